@@ -294,6 +294,7 @@ func c07StepGen(role string) *rapid.Generator[Step] {
 			ops = append(ops, w("rt.error", 5)...)
 			ops = append(ops, w("rt.initerror", 4)...)
 			ops = append(ops, "rt.restorenext", "rt.restoreerror", "oversize", "rt.next.async", "rt.next.async")
+			ops = append(ops, w("halfsent", 5)...)
 			ops = append(ops, w("ext.register", 4)...)
 			ops = append(ops, w("ext.next", 3)...)
 			ops = append(ops, "ext.initerror", "ext.exiterror")
@@ -323,6 +324,13 @@ func c07StepGen(role string) *rapid.Generator[Step] {
 			return Step{Op: "rt.initerror", ErrType: "Runtime.Boom", BodyMode: "lit", Lit: `{"errorMessage":"init boom","errorType":"X"}`}
 		case "oversize":
 			return Step{Op: "rt.response", ID: "cur", Body: &kit.Blob{Len: maxPayload + 1, Kind: "zero"}}
+		case "halfsent":
+			// a submission whose body stops half way: the process stalls in the middle of its upload
+			st := Step{Op: rapid.SampledFrom([]string{"rt.response", "rt.response", "rt.error", "rt.initerror"}).Draw(t, "halfOp"), ID: "cur", BodyMode: "transform", SlowBody: "never", ErrType: "Runtime.Half"}
+			if st.Op == "rt.initerror" {
+				st.ID, st.BodyMode, st.Lit = "", "lit", `{"errorMessage":"half an init error","errorType":"X"}`
+			}
+			return st
 		case "rt.next.async":
 			return Step{Op: "rt.next", Async: true, Tag: "dup"}
 		case "ext.next.async":
@@ -413,6 +421,10 @@ func c07Fixed() []c07Case {
 		{NExt: 1, Subs: [][]string{{"SHUTDOWN"}}, T: 300, ExecLagMs: map[string]int{"ext:e1": 5}, Stages: []c07Stage{{
 			Runtime: []Step{{Op: "rt.next"}, {Op: "rt.response", ID: "cur", BodyMode: "transform"}}, Exts: [][]Step{{{Op: "exit", Code: 2}}}, OnTerm: []string{"", ""}}}},
 		{NExt: 0, T: 300, ExecLagMs: map[string]int{"runtime": 5}, Stages: []c07Stage{{Runtime: []Step{{Op: "exit", Code: 3}}}}},
+		// the runtime stalls in the middle of uploading its response; the function timeout must still be answered in time
+		{NExt: 0, T: 300, Stages: []c07Stage{{Runtime: []Step{{Op: "rt.next"}, {Op: "rt.response", ID: "cur", BodyMode: "transform", SlowBody: "never"}}}}},
+		{NExt: 1, Subs: [][]string{{"INVOKE", "SHUTDOWN"}}, T: 300, Stages: []c07Stage{{Runtime: []Step{{Op: "rt.next"}, {Op: "rt.error", ID: "cur", BodyMode: "transform", ErrType: "Function.Half", SlowBody: "never"}},
+			Exts: [][]Step{{{Op: "ext.register", Events: []string{"INVOKE", "SHUTDOWN"}}, {Op: "ext.next"}, {Op: "ext.next"}}}, OnTerm: []string{"", ""}}}},
 		{NExt: 0, T: 300, ExitDelayMs: map[string]int{"runtime": 2300}, Stages: []c07Stage{{Runtime: []Step{{Op: "rt.next"}, {Op: "stall"}}}}},
 		{NExt: 0, T: 300, Stages: []c07Stage{{Runtime: []Step{{Op: "rt.next"}, {Op: "rt.response", ID: "garbage", BodyMode: "lit", Lit: "x"}, {Op: "rt.next", Async: true, Tag: "dup"}, {Op: "rt.response", ID: "cur", BodyMode: "transform"}, {Op: "exit", Code: 0}}}}},
 	}
